@@ -434,8 +434,8 @@ fn comparator_control(check: &Check) {
             compress_tables: false,
             table_method: M_ZLIB,
             files: vec![
-                FileSpec { name: "a.txt".into(), class: ContentClass::Text, len: LenSpec { halves: 3, delta: 0 }, seed: 1, method: M_ZLIB, enc: Enc::None },
-                FileSpec { name: "b.bin".into(), class: ContentClass::Random, len: LenSpec { halves: 1, delta: 0 }, seed, method: M_NONE, enc: Enc::None },
+                FileSpec { name: "a.txt".into(), class: ContentClass::Text, len: LenSpec { halves: 3, delta: 0 }, seed: 1, method: M_ZLIB, enc: Enc::None, locale: 0 },
+                FileSpec { name: "b.bin".into(), class: ContentClass::Random, len: LenSpec { halves: 1, delta: 0 }, seed, method: M_NONE, enc: Enc::None, locale: 0 },
             ],
         };
         spec.builder().build(p).expect("control build");
@@ -480,6 +480,7 @@ fn grid() -> Vec<Case> {
                             seed: i,
                             method: [M_ZLIB, M_NONE, M_BZIP2, M_ZLIB, M_LZMA][i as usize],
                             enc: [Enc::None, Enc::Key, Enc::None, Enc::FixKey, Enc::None][i as usize],
+                            locale: 0,
                         })
                         .collect();
                     v.push(Case {
